@@ -581,7 +581,7 @@ func TestC08FrontDoor(t *testing.T) { c08.Check(t) }
 // request by a superuser, per endpoint.
 func FuzzC08Body(f *testing.F) {
 	eps := []string{"list", "get", "info", "put", "activate", "delete-version", "delete"}
-	for i, s := range []string{`{}`, `{"Name":"a"}`, `{"Name":"a","Version":1,"UpdateIfChanged":true}`, `{"Name":"n","Value":"eA=="}`, `{"Name":"a","Version":2}`, `{"Name":"a","Version":1}`, `{"Name":"b"}`, `null`, `[]`, `{"Name":5}`, `{"Name":"a"`, `{"Name":"a","Version":4294967296}`, `"x"`, `{"name":"a","value":"!!"}`} {
+	for i, s := range []string{`{}`, `{"Name":"a"}`, `{"Name":"a","Version":1,"UpdateIfChanged":true}`, `{"Name":"n","Value":"eA=="}`, `{"Name":"a","Version":2}`, `{"Name":"a","Version":1}`, `{"Name":"b"}`, `null`, `[]`, `{"Name":5}`, `{"Name":"a"`, `{"Name":"a","Version":4294967296}`, `"x"`, `{"name":"a","value":"!!"}`, `{"":1e700}`, `{"Name":"a","Version":1e2}`, `{"Name":"a"}{`, `{"Name":"\ud800"}`} {
 		f.Add(uint8(i%7), []byte(s))
 	}
 	dir, _ := os.MkdirTemp(os.Getenv("VERIF_FAST_SCRATCH"), "fuzz08-")
@@ -617,7 +617,9 @@ func FuzzC08Body(f *testing.F) {
 			v = h.V("never-a-panic", "POST /api/%s body %q: %s", endpoint, body, pv.Detail)
 		}
 		n1 := sink.n()
-		var first any
+		// "is JSON" = the first value is syntactically valid JSON (RawMessage: no number conversion -
+		// {"":1e700} is valid JSON although it does not fit a float64)
+		var first json.RawMessage
 		isJSON := json.NewDecoder(bytes.NewReader(body)).Decode(&first) == nil
 		after, derr := dbx.Dump(d)
 		sink.mu.Lock()
